@@ -124,6 +124,34 @@ impl WsModel {
             }
             Err(e) => v.set_fail("whitespace_model:error", format!("source {src:?} failed: {e}")),
         }
+        // the rules do not depend on how the delimiters are spelled: the same sequence under two
+        // custom syntaxes (one with prefix-sharing delimiters) must give the same output
+        if v.fail.is_none() {
+            for d in [["<%", "%>", "<<", ">>", "<#", "#>"], ["<%", "%>", "<%=", "%>", "<%#", "%>"]] {
+                let syntax = minijinja::syntax::SyntaxConfig::builder()
+                    .block_delimiters(d[0], d[1])
+                    .variable_delimiters(d[2], d[3])
+                    .comment_delimiters(d[4], d[5])
+                    .build()
+                    .unwrap();
+                env.set_syntax(syntax);
+                let src = ws::source_with(&c.segs, &d);
+                match env.render_str(&src, ()) {
+                    Ok(got) => {
+                        if got != want {
+                            v.set_fail(
+                                "whitespace_model:custom_delimiters",
+                                format!("source {src:?} with {:?}: the rules give {want:?} but the engine renders {got:?}", c.settings),
+                            );
+                        }
+                    }
+                    Err(e) => v.set_fail("whitespace_model:custom_delimiters_error", format!("source {src:?} failed: {e}")),
+                }
+                if v.fail.is_some() {
+                    break;
+                }
+            }
+        }
         v
     }
 }
